@@ -81,7 +81,7 @@ Definition RSetExact (r : resp) (key value : bytes) : resp :=
     end
   else if beq key strContentEncoding then RSetContentEncodingBytes r value
   else if beq key strConnection then
-    (if beq strClose value then RSetConnectionClose r
+    (if beq strClose value then with_rh r (with_hh (hSetConnectionClose (rh r)) (delAllArgsStable (hh (rh r)) key))
      else with_rh r (hsetNonSpecial (hResetConnectionClose (rh r)) key value))
   else if beq key strServer then RSetServerBytes r value
   else if beq key strSetCookie then with_rh r (with_hcookies (rh r) (hcookies (rh r) ++ [(getCookieKey value, value)]))
@@ -196,7 +196,7 @@ Proof.
     beq_case c' strContentLength F5. { destruct (beq strClose v); [reflexivity|]. cbn. unfold hResetConnectionClose. destruct (hclose (rh r)); reflexivity. }
     beq_case c' strSetCookie F6. { destruct (beq strClose v); [reflexivity|]. cbn. unfold hResetConnectionClose. destruct (hclose (rh r)); reflexivity. }
     beq_case c' strTrailer F7. { destruct (beq strClose v); [reflexivity|]. cbn. unfold hResetConnectionClose. destruct (hclose (rh r)); reflexivity. }
-    destruct (beq strClose v); [reflexivity|]. cbn. unfold hResetConnectionClose.
+    destruct (beq strClose v); [cbn; apply peekAll_del_other; assumption|]. cbn. unfold hResetConnectionClose.
     destruct (hclose (rh r)); cbn; rewrite peekAll_set_other by assumption; [apply peekAll_del_other; assumption|reflexivity]. }
   beq_case c strServer E5.
   { subst c. unfold rvals. beq_case c' strContentType F1; [reflexivity|]. beq_case c' strContentEncoding F2; [reflexivity|].
@@ -339,7 +339,7 @@ Definition QSetExact (q : req) (key value : bytes) : req :=
     | None => q
     end
   else if beq key strConnection then
-    (if beq strClose value then QSetConnectionClose q
+    (if beq strClose value then with_qh q (with_hh (hSetConnectionClose (qh q)) (delAllArgsStable (hh (qh q)) key))
      else with_qh q (hsetNonSpecial (hResetConnectionClose (qh q)) key value))
   else if beq key strCookie then
     (let q := collectCookies q in with_qh q (with_hcookies (qh q) (prc (hcookies (qh q)) value)))
@@ -453,7 +453,7 @@ Proof.
     beq_case c' strContentLength F5. { destruct (beq strClose v); [reflexivity|]. cbn. unfold hResetConnectionClose. destruct (hclose (qh q)); reflexivity. }
     beq_case c' strCookie F6. { destruct (beq strClose v); [reflexivity|]. cbn. unfold hResetConnectionClose. destruct (hclose (qh q)); reflexivity. }
     beq_case c' strTrailer F7. { destruct (beq strClose v); [reflexivity|]. cbn. unfold hResetConnectionClose. destruct (hclose (qh q)); reflexivity. }
-    destruct (beq strClose v); [reflexivity|]. cbn. unfold hResetConnectionClose.
+    destruct (beq strClose v); [cbn; apply peekAll_del_other; assumption|]. cbn. unfold hResetConnectionClose.
     destruct (hclose (qh q)); cbn; rewrite peekAll_set_other by assumption; [apply peekAll_del_other; assumption|reflexivity]. }
   beq_case c strCookie E5.
   { subst c. destruct (collect_fields q Hnc) as (H1 & H2 & H3 & _ & _). cbv zeta. unfold qvals. cbn [qh with_qh qhost qua].
